@@ -16,7 +16,7 @@ from pathlib import Path
 HOME = Path(__file__).resolve().parent.parent
 BENIGN = HOME / 'selftest' / 'benign'
 WT = Path(os.environ.get('SELFTEST_WORKTREE', '/tmp/selftest-wt3'))
-PROPS = [f'C{i:02}' for i in range(1, 21)]
+PROPS = os.environ.get('BENIGN_CHECKS', '').split() or [f'C{i:02}' for i in range(1, 21)]
 
 
 def sh(cmd, **kw):
